@@ -3,8 +3,7 @@ namespace Ggql.Driver.C01
 open Ggql Ggql.Walk Ggql.Driver.WalkWire
 
 /-- D11 (hand-set): an unknown operation name falls back to the only operation.
-    D12: response keys are overwritten, not merged.  D13: depth limit leaks raw objects. -/
-def d11 : Bool := true
+    (read from ResolveExecutable by the translator).  D12: response keys are overwritten, not merged.  D13: depth limit leaks raw objects. -/
 def d12 : Bool := true
 
 /-- alternatives of the family: one flag toggled -/
@@ -14,6 +13,7 @@ def alts (tb : Tables) (c : Case) : List Alt :=
     { flag := "D07", onInCur := !tb.skip.accumulates,
       obs := runModel tb c { cur with skipTable := if tb.skip.accumulates then Skip.tableAssign else Skip.tableOr } },
     { flag := "D19", onInCur := cur.fragPathSegment, obs := runModel tb c { cur with fragPathSegment := !cur.fragPathSegment } },
+    { flag := "D11", onInCur := cur.opFallbackAnyName, obs := runModel tb c { cur with opFallbackAnyName := !cur.opFallbackAnyName } },
     { flag := "D20", onInCur := cur.keepValueOnError, obs := runModel tb c { cur with keepValueOnError := !cur.keepValueOnError } } ]
 
 /-- the data part of an observation -/
@@ -57,7 +57,7 @@ def handle (tb : Tables) (c impl : T) : String :=
         let trig := (alts tb cs).filter (fun a => a.onInCur && !(a.obs == cur))
         let extra : List String :=
           (if d12 && cs.ops.any (fun o => collides o.sels) then ["D12"] else []) ++
-          (if d11 && !(cs.ops.any (fun o => o.name == cs.opName)) && !cs.opName.isEmpty then ["D11"] else [])
+          []
         let fl := trig.map (·.flag) ++ extra
         if fl.isEmpty then "unattributed " ++ cur.render else "dev " ++ ",".intercalate fl
     else
@@ -67,6 +67,6 @@ def handle (tb : Tables) (c impl : T) : String :=
       | none => "mismatch " ++ (if specOk then "spec-ok " else "spec-bad ") ++ cur.render
 
 def flags (tb : Tables) : List (String × Bool) :=
-  [("D11", d11), ("D12", d12), ("D14", (cfgCur tb).condByIdentity)]
+  [("D11", (cfgCur tb).opFallbackAnyName), ("D12", d12), ("D14", (cfgCur tb).condByIdentity)]
 
 end Ggql.Driver.C01
